@@ -101,8 +101,8 @@ CHECKS = {
    technique="explicit-state BFS over real account states with data-preservation and old-key-dead invariants",
    design_ref="DESIGN.md §5 C12"),
  "C16": dict(engine="hist", level="model_checking",
-   text="Soundness half: at every transition of the C01 search (both backends) the account integrity report over all folders must contain no failure. Completeness half (engine integx, merged into the same run): on accounts built by real API calls on both backends (3 folders, a create/update/delete history, a 20 KiB file secret and a small attachment) every byte of every vault row's stored commit hash, encrypted meta and encrypted secret, of every folder event record's stored commit hash and payload and of every external blob is changed one at a time to 3 other values (quick: the 20 KiB blob at its first 64, last 64 and every 97th byte, sqlite cells at first/middle/last byte; thorough: every byte), and each folder's vault, event log and blob is removed one at a time; after each single mutation account_integrity + file_integrity must contain a failure for the affected folder or file. Byte ranges come from the engine's own parser, cross-checked against FormatStream on every record; every mutation is undone and the restoration verified by digest and a clean report.",
-   note="Completeness accounts are two hand-built accounts (one per backend), not the states of the history search. Framing bytes inside the hashed value, the previous-commit field of event records and removal of only the secret rows are not named by the property: evaluated and recorded as observations, never reported.",
+   text="Soundness half: at every transition of the C01 search (both backends) the account integrity report over all folders must contain no failure. Completeness half (engine integx, merged into the same run): on accounts built by real API calls on both backends (3 folders, a create/update/delete history, a 20 KiB file secret and a small attachment) every byte of every vault row's stored commit hash, encrypted meta and encrypted secret, of every folder event record's stored commit hash and payload and of every external blob is changed one at a time to 3 other values (quick: the 20 KiB blob at its first 64, last 64 and every 97th byte, sqlite cells at first/middle/last byte; thorough: every byte), and each folder's vault, event log and blob is removed one at a time; after each single mutation account_integrity (concurrency 1 and, for everything it flags, again with one task per folder) + file_integrity must contain a failure for the affected folder or file. Byte ranges come from the engine's own parser, cross-checked against FormatStream on every record; every mutation is undone and the restoration verified by digest and a clean report.",
+   note="Completeness accounts are three built account variants per backend (plain history; after compaction, folder password change, archive, rename/description/flags; with a deleted folder, an AES-GCM folder and a changed account password), not the states of the history search. Framing bytes inside the hashed value, the previous-commit field of event records and removal of only the secret rows are not named by the property: evaluated and recorded as observations, never reported.",
    technique="explicit-state BFS over real account states with the no-false-alarm invariant at every state, plus exhaustive enumeration of single-byte corruptions and removals of stored content with the report as oracle",
    design_ref="DESIGN.md §5 C16"),
  "C17": dict(engine="filex", level="model_checking",
